@@ -880,7 +880,7 @@ def upgate_rule(P, R):
     presence of a USER_PUNCH block (current_user_punch) AND the block's -user_punch switch (Get_user_punch()); a site that tests only
     the first adds columns to its sink that the others do not have."""
     RULE = "C05.upgate"
-    R.rule(RULE, "the three sites that emit USER_PUNCH columns (headings, values, table padding) test current_user_punch and the -user_punch switch alike", minimum=3)
+    R.rule(RULE, "the three sites that emit USER_PUNCH columns (headings, values, table padding) test current_user_punch and the -user_punch switch alike", minimum=4)
     SITES = ("Phreeqc::tidy_punch", "Phreeqc::punch_user_punch", "IPhreeqc::EndRow")
     n = 0
     for q in SITES:
@@ -903,6 +903,74 @@ def upgate_rule(P, R):
                             "gets the USER_PUNCH columns and the others do not" % T.text(x[2])[:70], file=f["file"], line=x[1], function=f["q"])
     if n < 3:
         R.anchor_missing(RULE, "only %d gated sites found" % n)
+    # the padding loop of EndRow runs from n_user_punch_index (the number of cells the program punched in this row, 0 when it
+    # executed no PUNCH) to the number of headings: it must run for every index >= 0, a row without PUNCH included, otherwise
+    # the table misses columns the heading line has (and a row with no cell at all is not counted)
+    fs = P.fns_named("IPhreeqc::EndRow")
+    if fs:
+        f = fs[0]
+        loops = []
+
+        def rec(node, conds):
+            if not T.is_node(node):
+                return
+            if node[0] == "For" and any(y[0] == "Member" and y[2] == "Phreeqc::n_user_punch_index" for y in T.walk(node[2]) if T.is_node(node[2])):
+                loops.append((node, list(conds)))
+            if node[0] == "If":
+                rec(node[3], conds + [node[2]])
+                rec(node[4], conds)
+                return
+            for ch in T.children(node):
+                rec(ch, conds)
+        rec(f["body"], [])
+        if len(loops) != 1:
+            R.anchor_missing(RULE, "EndRow: %d padding loops starting at n_user_punch_index" % len(loops))
+        else:
+            loop, conds = loops[0]
+
+            def conj(c):
+                c = T.strip_casts(c)
+                if T.is_node(c) and c[0] == "Paren":
+                    return conj(c[2])
+                if T.is_node(c) and c[0] == "Bin" and c[2] == "&&":
+                    return conj(c[3]) + conj(c[4])
+                return [c]
+
+            def val(e, idx):
+                e = T.strip_casts(e)
+                if T.is_node(e) and e[0] == "Paren":
+                    return val(e[2], idx)
+                if T.is_node(e) and e[0] == "Member" and e[2] == "Phreeqc::n_user_punch_index":
+                    return idx
+                if T.is_node(e) and e[0] == "Un" and e[2] == "-":
+                    v = val(e[3], idx)
+                    return None if v is None else -v
+                return T.lit_value(e)
+            bad = None
+            undec = None
+            for c in conds:
+                for k in conj(c):
+                    if not any(y[0] == "Member" and y[2] == "Phreeqc::n_user_punch_index" for y in T.walk(k)):
+                        continue
+                    for idx in (0, 1):
+                        r = None
+                        if k[0] == "Bin" and k[2] in (">", ">=", "<", "<=", "==", "!="):
+                            a, b = val(k[3], idx), val(k[4], idx)
+                            if a is not None and b is not None:
+                                r = {">": a > b, ">=": a >= b, "<": a < b, "<=": a <= b, "==": a == b, "!=": a != b}[k[2]]
+                        elif k[0] == "Member":
+                            r = bool(idx)
+                        if r is None:
+                            undec = k
+                        elif not r:
+                            bad = (k, idx)
+            if bad:
+                R.violation(RULE, "EndRow:padding", "the padding of never-punched USER_PUNCH headings is skipped when n_user_punch_index == %d (`%s`): in a row where the program executed no PUNCH "
+                            "the table gets no cells for the headings that the string and file have" % (bad[1], T.text(bad[0])[:60]), file=f["file"], line=loop[1], function=f["q"])
+            elif undec is not None:
+                R.anchor_missing(RULE, "EndRow: guard `%s` of the padding loop cannot be evaluated" % T.text(undec)[:60])
+            else:
+                R.ok(RULE, "EndRow:padding", "padding loop runs for every n_user_punch_index >= 0 (guards mentioning the index hold at 0 and 1)")
 
 
 def rowend_rule(P, R):
